@@ -281,10 +281,23 @@ def constsCase (args : List String) (impl : String) : Verdict :=
     mk impl model [noCrash impl, ("constants_and_strings_equal_dictionary_values", impl == model)]
   | _ => bad "consts-arity"
 
+/-- names another package's dictionary declares for this attribute (`-ref`): `String()` of each number is the
+    name written there (`name=number` pairs, one per number, ascending) -/
+def extConstsCase (args : List String) (impl : String) : Verdict :=
+  match args with
+  | [_, dv] =>
+    let decls : List (String × Nat) := (dv.splitOn ",").filterMap fun e => match e.splitOn "=" with
+      | [n, k] => k.toNat?.map fun k => (n, k)
+      | _ => none
+    let model := ",".intercalate (decls.map fun (n, k) => s!"{k}={n}")
+    mk impl model [noCrash impl, ("externally_declared_value_names_equal_dictionary", impl == model)]
+  | _ => bad "extconsts-arity"
+
 def c12 (op : String) (args : List String) (impl : String) : Verdict :=
   match op with
   | "helper" => helperCase "C12" args impl
   | "consts" => constsCase args impl
+  | "extconsts" => extConstsCase args impl
   | _ => bad s!"op:{op}"
 
 def c14 (op : String) (args : List String) (impl : String) : Verdict :=
